@@ -62,6 +62,8 @@ pub(crate) struct CommandWaker {
 impl Wake for CommandWaker {
     fn wake(self: Arc<Self>) {
         self.wake_by_ref();
+        #[cfg(crux_verif)]
+        crate::verif::point("cw_drop");
     }
 
     fn wake_by_ref(self: &Arc<Self>) {
@@ -69,8 +71,14 @@ impl Wake for CommandWaker {
         // nothing to do.
         // TODO: Does that mean we should bail, since waking ourselves is
         // now pointless?
+        #[cfg(crux_verif)]
+        crate::verif::point("cw_send");
         let _ = self.ready_queue.send(self.task_id);
+        #[cfg(crux_verif)]
+        crate::verif::point("cw_woken");
         self.woken.store(true, Ordering::Release);
+        #[cfg(crux_verif)]
+        crate::verif::point("cw_parent");
 
         // Note: calling `wake` before `register` is a no-op
         self.parent_waker.wake();
@@ -161,6 +169,8 @@ impl<Effect, Event> Command<Effect, Event> {
             }
 
             while let Ok(task_id) = self.ready_queue.try_recv() {
+                #[cfg(crux_verif)]
+                crate::verif::point("cr_task");
                 match self.run_task(task_id) {
                     TaskState::Missing => {
                         // The task has been evicted because it completed.  This can happen when
@@ -206,12 +216,18 @@ impl<Effect, Event> Command<Effect, Event> {
         let waker = arc_waker.clone().into();
         let context = &mut Context::from_waker(&waker);
 
+        #[cfg(crux_verif)]
+        crate::verif::point("ct_poll");
+
         let result = match task.future.as_mut().poll(context) {
             Poll::Pending => TaskState::Suspended,
             Poll::Ready(_) => TaskState::Completed,
         };
 
         drop(waker);
+
+        #[cfg(crux_verif)]
+        crate::verif::point("ct_woken");
 
         // If the task is pending, but there's only one copy of the waker - our one -
         // it can never be woken up again so we most likely need to evict it.
@@ -220,6 +236,8 @@ impl<Effect, Event> Command<Effect, Event> {
         // Note that there is an exception: the task may have used the waker and dropped it,
         // making it ready, rather than abandoned.
         let task_is_ready = arc_waker.woken.load(Ordering::Acquire);
+        #[cfg(crux_verif)]
+        crate::verif::point("ct_count");
         if result == TaskState::Suspended && !task_is_ready && Arc::strong_count(&arc_waker) < 2 {
             return TaskState::Cancelled;
         }
